@@ -159,6 +159,10 @@ w("""
 //@   let mh = t.client.messageHandlers
 //@   assigns map(t.client.registeredTopics), mh.handlers, %(FIN)s
 //@   ensures [C25] keeps: clSubEntry(t.client, t) && handlersWF(mh)
+// the filter the subscription is filed under is the one that was subscribed: the name, the predefined ID's name for this client, or the two octets of the short ID
+//@   at Split.0 before assert [C27] files_the_subscribed_filter: (sub.TopicIDType == 0 ==> arg(0) == sub.TopicName) &&
+//@      (sub.TopicIDType == 1 ==> arg(0) == nameSpec(t.client.cfg.PredefinedTopics, t.client.cfg.ClientID, sub.TopicID)) &&
+//@      (sub.TopicIDType == 2 ==> len(arg(0)) == 2 && arg(0)[0] == uint8(sub.TopicID >> 8) && arg(0)[1] == uint8(sub.TopicID))
 //@   ensures [C27] refused_adds_nothing: suback.ReturnCode != 0 ==> (forall k iface :: (k in mh.handlers) == old(k in mh.handlers) && smGet(mh.handlers, k) == old(smGet(mh.handlers, k)))
 //@   ensures [C27] string_filter_stored_under_its_name: suback.ReturnCode == 0 && sub.TopicIDType == 0 ==> (box(string, sub.TopicName) in mh.handlers) &&
 //@      smGet(mh.handlers, box(string, sub.TopicName)).(*messageHandler).callback == t.callback &&
@@ -171,6 +175,9 @@ w("""
 //@   let mh = t.client.messageHandlers
 //@   assigns mh.handlers, %(FIN)s
 //@   ensures [C25] keeps: clUnsubEntry(t.client, t) && handlersWF(mh)
+//@   at Split.0 before assert [C27] removes_the_unsubscribed_filter: (unsub.TopicIDType == 0 ==> arg(0) == unsub.TopicName) &&
+//@      (unsub.TopicIDType == 1 ==> arg(0) == nameSpec(t.client.cfg.PredefinedTopics, t.client.cfg.ClientID, unsub.TopicID)) &&
+//@      (unsub.TopicIDType == 2 ==> len(arg(0)) == 2 && arg(0)[0] == uint8(unsub.TopicID >> 8) && arg(0)[1] == uint8(unsub.TopicID))
 //@   ensures [C27] string_filter_removed: unsub.TopicIDType == 0 && %(TB)s.err == old(%(TB)s.err) ==> !(box(string, unsub.TopicName) in mh.handlers)
 //@   ensures [C27] adds_nothing: forall k iface :: (k in mh.handlers) ==> old(k in mh.handlers) && smGet(mh.handlers, k) == old(smGet(mh.handlers, k))
 """ % dict(FIN=FIN, TB=TB, s1=ST(1), s2=ST(2), s4=ST(4)))
